@@ -246,6 +246,12 @@ fn run_program(spec: &J) -> J {
     })
 }
 
+#[cfg(not(feature = "kernels"))]
+fn call_fn(_spec: &J) -> J {
+    json!({"error": "kernel mode unavailable: the replayer was built without the `kernels` feature"})
+}
+
+#[cfg(feature = "kernels")]
 fn call_fn(spec: &J) -> J {
     let name = spec["fn"].as_str().unwrap();
     let args: Vec<Value> = spec["args"].as_array().unwrap().iter().map(from_tagged).collect();
